@@ -18,6 +18,7 @@ from smc import core, refmodels, util
 from smc.envs import EncodingChangeScore, TableChangeScore
 
 ID = "C08"
+LEVEL20 = float(2 ** 20)
 LEVEL = "exploration"
 RULE = (
     "families: 'place' = every (n, bandwidth) with 2b <= n <= N, encoding score; 'detect' = every assignment "
@@ -183,6 +184,21 @@ def check_data(acc, case, key):
     else:
         ref = make_score("L2" if case["score"] == "L2cost" else case["score"]).fit(X)
         want[pos] = ref.evaluate(np.array([(t - b, t, t + b) for t in pos])).sum(axis=1)
+    if case.get("large_level") and case["score"] in ("CUSUM", "L2cost"):
+        # independent of the scorer classes: the squared-error change score in exact rational arithmetic
+        from fractions import Fraction
+
+        def rss(rows):
+            m = sum(Fraction(v) for v in rows) / len(rows)
+            return sum((Fraction(v) - m) ** 2 for v in rows)
+
+        col = [float(v) for v in X[:, 0]]
+        for t in pos:
+            ex = float(rss(col[t - b:t + b]) - rss(col[t - b:t]) - rss(col[t:t + b]))
+            ex = ex ** 0.5 if case["score"] == "CUSUM" else ex
+            if not util.close(want[t], ex, 1e-8):
+                acc.violation("mw-score-definition", case, f"reference scorer gives {want[t]!r} at t={t}; exact squared-error change score {ex!r}", key)
+                return
     for t in range(n):
         if not util.close(sc[t], want[t], 1e-8):
             acc.violation("mw-score-definition", case,
@@ -301,6 +317,15 @@ def data_cases(tier, seed):
                         for ts in (0.0, 0.2) + ((None,) if b == 2 else ()):
                             yield {"fam": "data", "x": list(xs), "score": score, "b": b, "thr_scale": ts,
                                    "level": 0.3 if ts is None else None}
+    # a LARGE LEVEL next to a small spread (2**20 and 2**20 + 3): with bandwidths 1, 2 (and 4) every prefix sum, mean and
+    # variance is exact in binary64, so scores, reversal and detections are compared as strictly as on the base alphabet;
+    # a shortcut that judges "nothing happens here" with a tolerance relative to the level is wrong on every one of them
+    for n in range(2, (8 if tier == "quick" else 10) + 1):
+        for xs in itertools.product((LEVEL20, LEVEL20 + 3), repeat=n):
+            for score, bs in (("CUSUM", (1, 2, 4)), ("L2cost", (1, 2)), ("GV", (2,))):
+                for b in bs:
+                    if n >= 2 * b:
+                        yield {"fam": "data", "x": list(xs), "score": score, "b": b, "thr_scale": 0.2, "large_level": True}
     for n in (4, 5) if tier == "quick" else (4, 5, 6):
         for flat in itertools.product((0, 3), repeat=2 * n):
             x = [list(flat[2 * i:2 * i + 2]) for i in range(n)]
@@ -354,7 +379,7 @@ def bounds(tier, seed):
         "levels": "{0, thr, nextafter(thr,+inf), 2*thr} with thr the detector's own default threshold (read back)",
         "min_detection_interval": "1..max(1, b/2-1)",
         "long": "piecewise-constant textured series n in (16,24) quick / up to 40, <= 2 changes, bandwidth in (4,5,6,8), mdi up to 3",
-        "data": "all series over (0,1,3) and its seed-affine image, n<=7 (quick) / 9; 2-column (0,3) n<=5/6; (0,4) n=12/14 with bandwidth 6, mdi in (1,2)",
+        "data": "all series over (0,1,3) and its seed-affine image, n<=7 (quick) / 9; all series over (2**20, 2**20+3) n<=8 / 10 (large level, small spread; bandwidths 1, 2, 4); 2-column (0,3) n<=5/6; (0,4) n=12/14 with bandwidth 6, mdi in (1,2)",
     }
 
 
